@@ -222,6 +222,8 @@ def run(prog, rep, tier='quick', config='default'):
                    detail='%d columns: each is written from and read into the same CsvTx field' % len(expc))
         if rfields.get('date') != {'settlement_date'}:
             rep.violation('R11c', 'legacy-date-maps-to-settlement-date', fn=reader.name, detail='deprecated "date" column is read into %s' % sorted(rfields.get('date', [])))
+        else:
+            rep.ok('R11c', 'legacy-date-maps-to-settlement-date', fn=reader.name, detail='the deprecated "date" column is read into CsvTx.settlement_date', trivial=True)
 
     # ------------------------------------------------------------------ R11d: optional columns
     # the optional-column table: an array literal of the writer, or a constant item the writer group refers to
